@@ -103,9 +103,20 @@ func largeCase(shape string, n int) string {
 	select {
 	case r := <-done:
 		return r
-	case <-time.After(30 * time.Second):
+	case <-time.After(largeDeadline(n)):
 		return "err slow"
 	}
+}
+
+// largeDeadline: the bound exists to expose super-linear blow-ups (minutes to years), not to time the
+// code: 30 s up to 3 000 nodes (normally well under a second), growing linearly beyond, so that a busy
+// machine does not turn the largest thorough-tier cases (a few seconds when idle) into an alarm.
+func largeDeadline(n int) time.Duration {
+	d := 30 * time.Second
+	if n > 3000 {
+		d = time.Duration(n/100) * time.Second
+	}
+	return d
 }
 
 func largeSteps(shape string, n int) string {
@@ -165,7 +176,7 @@ func OracleLarge(c, res string) string {
 		"err retree":  "the formatted text parses to a different tree",
 		"err idem":    "formatting is not idempotent",
 		"err load":    "LoadString disagrees with the in-order semantics (or between source and formatted text)",
-		"err slow":    "no answer within 30 s",
+		"err slow":    "no answer within the deadline (30 s up to 3000 nodes, 1 s per 100 nodes beyond)",
 	}[res]
 	return "large script (" + c + "): " + res + " - " + what
 }
